@@ -149,7 +149,7 @@ CLAIMED = {
          "Rocq proof of hmtx/loca/glyf-points/components/cmap4-6-12-13/kern0 codec round trips + byte-exact correspondence + generated-content round-trip sweeps"),
  "C03": ("Theorems over the Gallina transcription of the TTX text layer: escape / escapeattr followed by a specification-level XML "
          "un-escaper return every string of legal XML characters (attribute values up to exactly the TAB/LF->space normalisation the property "
-         "allows), by induction over the string; hexStr/deHexStr round-trip every byte string; num2binary/binary2num (bit fields as groups of binary digits) round-trip every value that fits its width; the TrueType instruction disassembler and assembler (ttProgram, token level, over instruction tables regenerated from the source on every run): whatever toXML writes for a program, fromXML assembles back into the same bytecode (program_roundtrip). The transcriptions AND the specification-level "
+         "allows), by induction over the string; hexStr/deHexStr round-trip every byte string; num2binary/binary2num (bit fields as groups of binary digits) round-trip every value that fits its width; the TrueType instruction disassembler and assembler (ttProgram, token level, over instruction tables regenerated from the source on every run): whatever toXML writes for a program, fromXML assembles back into the same bytecode (program_roundtrip), and the automatic PUSH[ ] packing pushes exactly its arguments (push_auto_values). The transcriptions AND the specification-level "
          "un-escaper are tied by correspondence to xmlWriter and to expat. Per-table toXML/fromXML is covered on the implementation: corpus fonts "
          "covering every table tag and generated fonts (instruction streams with every PUSH boundary value, glyph names colliding as file names, "
          "COLRv1) dumped with every option set into mixed-case paths and re-imported — all option sets give the same table bytes, generation 1 "
